@@ -265,14 +265,14 @@ impl Send {
             // Note that we don't call `self.recv_err` because we want to enqueue
             // the reset frame before transitioning the stream inside
             // `reclaim_all_capacity`.
-            self.prioritize.clear_queue(buffer, stream);
+            self.prioritize.clear_queue(buffer, stream, counts);
         } else {
             // Only the HEADERS that open the stream have to survive. DATA or
             // trailers queued behind them must be discarded like for any
             // other reset: they would be sent ahead of the RST_STREAM, and
             // DATA that is waiting for window would hold it back forever.
             let headers = stream.pending_send.pop_front(buffer);
-            self.prioritize.clear_queue(buffer, stream);
+            self.prioritize.clear_queue(buffer, stream, counts);
             if let Some(headers) = headers {
                 stream.pending_send.push_back(buffer, headers);
             }
@@ -501,7 +501,7 @@ impl Send {
         counts: &mut Counts,
     ) {
         // Clear all pending outbound frames
-        self.prioritize.clear_queue(buffer, stream);
+        self.prioritize.clear_queue(buffer, stream, counts);
         self.prioritize.reclaim_all_capacity(stream, counts);
 
         // A scheduled reset is normally completed when the stream is popped
@@ -642,7 +642,7 @@ impl Send {
                         counts.transition(stream, |counts, stream| {
                             stream.is_pending_push = false;
                             stream.set_reset(Reason::CANCEL, Initiator::Library);
-                            self.prioritize.clear_queue(buffer, stream);
+                            self.prioritize.clear_queue(buffer, stream, counts);
                             self.prioritize.reclaim_all_capacity(stream, counts);
                         });
                     }
